@@ -59,8 +59,8 @@ class Explorer:
             raise PathLimit("decision depth %d exceeded" % self.max_depth)
         base = list(S.ctx().facts) + list(self.pc)
         self.stats["feasibility_queries"] += 2
-        rt = lower.solve(base + [t], self.timeout_s)
-        rf = lower.solve(base + [T.bnot(t)], self.timeout_s)
+        rt = lower.solve(base + [t], self.timeout_s, hard=False)
+        rf = lower.solve(base + [T.bnot(t)], self.timeout_s, hard=False)
         can_t = rt.status != "unsat"
         can_f = rf.status != "unsat"
         if rt.status == "unknown" or rf.status == "unknown":
